@@ -15,6 +15,7 @@ type Spec struct {
 	Prop   string
 	Mk     func() World
 	Limits Limits
+	Cases  int // >0: an enumerated sweep; run seeds 0..Cases-1 exactly once, ignoring the time budget
 }
 
 // ReplayFile is the on-disk form of one exactly repeatable execution.
@@ -57,7 +58,8 @@ type WorkerOut struct {
 	SeedFirst   uint64            `json:"seed_first"`
 	SeedLast    uint64            `json:"seed_last"`
 	StepHist    map[string]int    `json:"step_hist"`
-	Incomplete  bool              `json:"incomplete"`
+	Cases       int               `json:"cases"`
+	SeedHashes  map[string]string `json:"seed_hashes,omitempty"`
 	ProfileHist map[string]int    `json:"profile_hist,omitempty"`
 }
 
@@ -153,18 +155,26 @@ func worker(t *testing.T, world string, sp *Spec) {
 	outPath := os.Getenv("VERIF_OUT")
 	progress := outPath + ".progress"
 
-	out := WorkerOut{Prop: sp.Prop, Worker: idx, Faults: map[string]int{}, Probes: map[string]int{}, ViolCount: map[string]int{}, StepHist: map[string]int{}}
+	out := WorkerOut{Prop: sp.Prop, Worker: idx, Cases: sp.Cases, Faults: map[string]int{}, Probes: map[string]int{}, ViolCount: map[string]int{}, StepHist: map[string]int{}}
 	hashes := map[string]bool{}
 	nthashes := map[string]bool{}
 	states := map[uint64]struct{}{}
 	seenViol := map[string]int{}
 	start := time.Now()
 	out.SeedFirst = seed0 + uint64(idx)
+	if sp.Cases > 0 {
+		seed0 = 0
+		out.SeedFirst = uint64(idx)
+	}
 	for k := 0; k < maxRuns; k++ {
-		if time.Since(start) > budget {
+		seed := seed0 + uint64(idx) + uint64(k)*uint64(n)
+		if sp.Cases > 0 {
+			if seed >= uint64(sp.Cases) {
+				break
+			}
+		} else if time.Since(start) > budget {
 			break
 		}
-		seed := seed0 + uint64(idx) + uint64(k)*uint64(n)
 		os.WriteFile(progress, []byte(strconv.FormatUint(seed, 10)), 0o644)
 		keep := out.Runs < 1
 		r := RunOne(t, sp.Mk, NewSeedTape(seed), sp.Limits, keep)
@@ -182,6 +192,12 @@ func worker(t *testing.T, world string, sp *Spec) {
 			states[st] = struct{}{}
 		}
 		hashes[r.Hash] = true
+		if os.Getenv("VERIF_DUMP_HASHES") != "" {
+			if out.SeedHashes == nil {
+				out.SeedHashes = map[string]string{}
+			}
+			out.SeedHashes[strconv.FormatUint(seed, 10)] = r.Hash
+		}
 		if r.Probes["nontrivial"] > 0 {
 			out.Nontrivial++
 			nthashes[r.Hash] = true
